@@ -27,9 +27,12 @@ def parse_digits(base, s):
     """digit string -> int, or None when invalid."""
     if len(s) == 0 or len(s) > 10:
         return None
-    up = s.upper()
-    if any(c not in DIGITS[base] for c in up):
+    # validate the characters AS WRITTEN (ASCII digits and letters in either
+    # case): str.upper() alone would turn the ligature U+FB00 into 'FF'
+    if any(c not in DIGITS[base] and c not in DIGITS[base].lower()
+           for c in s):
         return None
+    up = s.upper()
     v = int(up, BASE[base])
     if len(up) == 10 and v >= 1 << (BITS[base] - 1):
         v -= 1 << BITS[base]
